@@ -56,6 +56,13 @@ def measured():
         fk = ", ".join("%s %s" % (k, v) for k, v in sorted(faults.items(), key=lambda kv: -kv[1])[:5])
         out.append("| %s (%s) | %s | %s | %s | %s s | %s | %s | %s s |" % (e["property_id"], e["tier"], c.get("evaluations"), c.get("distinct_nontrivial"),
                    c.get("scheduler_steps"), int(c.get("simulated_seconds_covered") or 0), c.get("simulated_runs_per_hour"), fk or "—", e.get("wall_s")))
+    tp = V + "/.build/thorough-summary.txt"
+    if os.path.exists(tp):
+        out += ["", "Thorough tier, last full sweep (`tools/thorough-all.sh`, 900 s budget per property, seed 1; one line per property: exit code, unlisted violations, KNOWN-FINDING lines, totals):", ""]
+        for l in open(tp).read().splitlines():
+            m = re.match(r"(C\d+) rc=(\d+) (\d+) violations; (\d+) known; C\d+ thorough: runs=(\d+) nontrivial=(\d+) distinct=\d+ steps=(\d+) sim=(\d+)s", l)
+            if m:
+                out.append("    %s exit=%s violations=%s known=%s runs=%s non-trivial=%s steps=%s simulated=%ss" % m.groups())
     lp = V + "/.build/selftest-det.log"
     if os.path.exists(lp):
         lines = [l for l in open(lp).read().splitlines() if l.startswith("determinism ") or "MISMATCH" in l]
